@@ -16,7 +16,9 @@ extern "C" void stub_request(core::TaskInterface* ti, const core::KeyType* k, ui
 // llvm::sys::path::append(path, a, b, c, d) on POSIX: join with one separator (environment, lib/llvm/Support/Path.cpp)
 extern "C" void stub_path_append(llvm::SmallVectorImpl<char>* path, const llvm::Twine* a, const llvm::Twine* b, const llvm::Twine* c, const llvm::Twine* d) {
   llvm::StringRef s = a->getSingleStringRef();
-  if (!path->empty() && path->back() != '/') path->push_back('/');
+  bool sep = !path->empty() && path->back() != '/';
+  VF_ASSUME(sep);                       // the directory of this harness is "d": a separator is needed (kept out of symex's branching, which would make every later length symbolic)
+  path->push_back('/');
   for (size_t i = 0; i < s.size(); i++) path->push_back(s[i]);
 }
 extern "C" void harness_fanout(void) {
@@ -52,6 +54,21 @@ extern "C" void harness_fanout(void) {
               "the recursion asks for the same kind of signature: structure for a structure input, full tree signature for a tree input");
     llvm::StringRef p = VF_STRUCT ? sub.getFilteredDirectoryPath() : sub.getDirectoryTreeSignaturePath();
     VF_ASSERT(p.size() == 3 && p[0] == 'd' && p[1] == '/' && p[2] == 'c', "the recursion is for the child's path");
+    // the sub-directory's signature arrives: it is kept for the hash (G1/G2 decide what the hash covers)
+    core::ValueType& sub2 = *new core::ValueType; sub2.push_back(nondet_u8()); sub2.push_back(nondet_u8());
+    ((core::Task&)task).provideValue(ti, 2, core::KeyType("x"), sub2);
+    VF_ASSERT(g_nreq == 2, "a sub-directory signature needs no further input");
+#if VF_STRUCT
+    auto& kept = task.childResults[0].directoryStructureSignatureValue;
+#else
+    auto& kept = task.childResults[0].directorySignatureValue;
+#endif
+    VF_ASSERT(kept.hasValue() && kept->size() == 2 && (*kept)[0] == sub2[0] && (*kept)[1] == sub2[1], "the sub-directory's signature is kept for the child it belongs to");
   }
+  // what the hash will be computed from is what the engine delivered
+  VF_ASSERT(task.directoryValue.size() == listing.size() && task.childResults.size() == 1 && task.childResults[0].filename.size() == 1 && task.childResults[0].filename[0] == 'c', "the listing and the child's name are kept");
+  VF_ASSERT(task.childResults[0].value.size() == childVal.size(), "the child's node value is kept");
+  for (size_t i = 0; i < childVal.size() && i < 90; i++) VF_ASSERT(task.childResults[0].value[i] == childVal[i], "the child's node value is kept");
+  for (size_t i = 0; i < listing.size() && i < 100; i++) VF_ASSERT(task.directoryValue[i] == listing[i], "the directory's own value is kept");
   VF_WITNESS();
 }
